@@ -313,8 +313,13 @@ int mod_deregister(m_mod_t **mod, bool from_user) {
         ret = m_map_remove(c->modules, m->name);
         
         if (ret == 0) {
-            /* Stop module */
-            stop(m, true);
+            /*
+             * Stop module; its on_stop() callback may have started it again:
+             * a zombie must not be left with its sources still being polled.
+             */
+            do {
+                stop(m, true);
+            } while (m_mod_is(m, M_MOD_RUNNING | M_MOD_PAUSED));
             m->state = M_MOD_ZOMBIE;
             
             /* Free FS internal data */
